@@ -478,3 +478,25 @@ func (s *Server) EnableTunnelsSlowStore() (*Tunnels, *WriteGate) {
 	s.SM.SetTunnelHandler(h)
 	return &Tunnels{S: s, ConnCodes: cc, Handler: h, Mappings: pms}, g
 }
+
+// TrafficBytes reads the mapping back from the store and returns the byte total of its traffic
+// statistics (0 if the mapping does not exist). Added for C04 round 3 (additive): a closed
+// bridge's final traffic report is a whole-record write the driver waits for.
+func (t *Tunnels) TrafficBytes(mappingID string) int64 {
+	m, err := t.Mappings.GetPortMapping(mappingID)
+	if err != nil || m == nil {
+		return 0
+	}
+	return m.TrafficStats.BytesSent + m.TrafficStats.BytesReceived
+}
+
+// StoredMapping reads the mapping record back from the store as it is (nil if it does not
+// exist) - the fields, not a validity verdict computed from them. Added for C04 round 3
+// (additive).
+func (t *Tunnels) StoredMapping(mappingID string) *models.PortMapping {
+	m, err := t.Mappings.GetPortMapping(mappingID)
+	if err != nil {
+		return nil
+	}
+	return m
+}
